@@ -293,11 +293,37 @@ let handle_emit rest =
   | WErr e -> "err " ^ err_str e
   | WUnsup u -> "unsup " ^ wunsup_str u
 
+(* ---------------- character-level tokenizer (Fmt/VLex.v): LEX <hex of the text | ->  ->
+   "raw <n> {tok} | seen <m> {tok}"; raw = generate_tokens (comments included), seen = the has_next/next stream.
+   Everything here is a loop: texts of a few MB travel on one line. *)
+let handle_lex rest =
+  let h = match rest with [h] -> h | _ -> failwith "LEX: one argument" in
+  let text =
+    if h = "-" then []
+    else begin
+      if String.length h land 1 = 1 then failwith "LEX: odd hex";
+      let acc = ref [] in
+      for i = String.length h / 2 - 1 downto 0 do
+        acc := n_of_int (int_of_string ("0x" ^ String.sub h (2 * i) 2)) :: !acc
+      done;
+      !acc
+    end in
+  let b = Buffer.create (String.length h + 64) in
+  let put name ts =
+    Buffer.add_string b name; Buffer.add_char b ' ';
+    Buffer.add_string b (string_of_int (List.length ts));
+    List.iter (fun t -> Buffer.add_string b " x"; List.iter (fun c -> Buffer.add_string b (Printf.sprintf "%02x" (int_of_n c))) t) ts in
+  put "raw" (tokenize_raw_loop text);
+  Buffer.add_string b " | ";
+  put "seen" (tokenize_loop text);
+  Buffer.contents b
+
 let handle line =
   let toks = List.filter (fun s -> s <> "") (String.split_on_char ' ' line) in
   match toks with
   | "ELAB" :: rest -> handle_elab rest
   | "EMIT" :: rest -> handle_emit rest
+  | "LEX" :: rest -> handle_lex rest
   | ["GW"; lo; n; l; r] ->
     let n = int_of_string n in
     let ws = List.init n (fun i -> i) in
